@@ -2468,10 +2468,10 @@ pub fn check_serde(case: &SerdeCase, obs: &mut Obs) {
     }
 }
 
-const PART_SHIPPED: PartCfg = PartCfg { name: "shipped", genome_len: 64, cases_quick: 1500, cases_thorough: 100_000, panic: PanicPolicy::Violation };
-const PART_GC: PartCfg = PartCfg { name: "gc", genome_len: 256, cases_quick: 3000, cases_thorough: 150_000, panic: PanicPolicy::Violation };
-const PART_SERDE: PartCfg = PartCfg { name: "serde", genome_len: 96, cases_quick: 12000, cases_thorough: 600_000, panic: PanicPolicy::Violation };
-const PART_FILES: PartCfg = PartCfg { name: "files", genome_len: 640, cases_quick: 4000, cases_thorough: 200_000, panic: PanicPolicy::Violation };
+const PART_SHIPPED: PartCfg = PartCfg { name: "shipped", genome_len: 64, cases_quick: 4000, cases_thorough: 100_000, panic: PanicPolicy::Violation };
+const PART_GC: PartCfg = PartCfg { name: "gc", genome_len: 256, cases_quick: 9000, cases_thorough: 150_000, panic: PanicPolicy::Violation };
+const PART_SERDE: PartCfg = PartCfg { name: "serde", genome_len: 96, cases_quick: 36000, cases_thorough: 600_000, panic: PanicPolicy::Violation };
+const PART_FILES: PartCfg = PartCfg { name: "files", genome_len: 640, cases_quick: 10000, cases_thorough: 200_000, panic: PanicPolicy::Violation };
 
 pub fn run(ctx: &Ctx) {
     ctx.set_rule("files (sampled): a universe of 2-8 substances with identifiers in all six kinds (strings distinct inside a kind, colliding across kinds; 5 % of the kinds dropped per record) is spread over 1-3 JSON files (overlapping, different parameters per file, random file order) of one of 8 real parameter types (PcSaft, ePC-SAFT, SAFT-VR Mie, SAFT-VRQ Mie, PeTS, uv-theory, Joback, DIPPR; every optional field present/absent); binary file absent / empty / 60 % of the pairs stored as (id1,id2) or (id2,id1) in random order; request = 1-3 (file, list) entries with 1-4 strings in total, 12 % injected duplicate, 12 % injected unknown (foreign kind, other file, nonsense); every IdentifierOption; routes from_json / from_multiple_json, then from_records, new_binary (n = 2), subset, and the same request against the reversed files with re-oriented binary records. files-exhaustive (lattice, seed independent): every ordered subset up to size 4 of a 5-record file, all six options for PcSaft and one option for each other family. shipped: 1-4 records from 1-3 files of 8 shipped file groups with their binary files, optional duplicate / unknown. gc: homo (PcSaftParameters) / hetero (GcPcSaftEosParameters, GcPcSaftFunctionalParameters) from_segments and from_json_segments over the shipped tables (and binary tables) or synthetic tables of 2-6 segments, 1-3 molecules of 1-8 beads with linear-default or explicit tree bonds (or shipped gc substances). serde: 22 record types, optional fields present/absent, 6-digit or 17-digit floats. Non-trivial: files/shipped: query order differs from file order, or a reversed binary record is used, or a rejection is demanded; gc: repeated segment and (homo or branched); serde: every case. Distinct by hash of the canonical case JSON.");
